@@ -1,5 +1,6 @@
 import EmbitModel.Driver.Proto
 import EmbitModel.Crypto.SecpOps
+import EmbitModel.Crypto.SecpLawful
 import EmbitModel.Model.PySecp
 import EmbitModel.Spec.LibsecpContract
 /-
@@ -14,7 +15,11 @@ import EmbitModel.Spec.LibsecpContract
 namespace Embit.Driver
 open Embit Embit.Crypto Embit.Model
 
-def E := secpOps
+/-- the curve record every op of this file (and `sign.*`, `sigcheck.*`, and through `toKeys` the key ops) evaluates:
+    the LAWFUL secp256k1 record (`EcLaws Driver.E` is a theorem: Props/C08W `secpLawful_ec_laws`). It replaced
+    `Crypto.secpOps`, whose carrier contains junk points (`Props/C02Z.old_driver_record_unlawful`); that record is now
+    used only by the differential ops `ecops.*` of Driver/PyCurve.lean. -/
+def E : EcOps := secpLawful
 def Hs := shaOps
 /-- bound on RFC 6979 retries (each has probability ≈ 2^-128) -/
 def fuel : Nat := 64
@@ -158,8 +163,8 @@ def handleSecp (op : String) (args : List String) : Option String :=
   | "ecdsa.verify" => do
     let (pk, m, r, s) ← runTok (do
       let pk ← tokBytes; let m ← tokBytes; let r ← tokNat; let s ← tokNat; pure (pk, m, r, s)) args
-    pure (match Secp.secParse pk with
-      | some q => "ok " ++ showPyBool (Spec.Ecdsa.verify E (some q) (ofBe m) r s) ++ " " ++
+    pure (match SecpLawful.secParse pk with
+      | some q => "ok " ++ showPyBool (Spec.Ecdsa.verify E q (ofBe m) r s) ++ " " ++
                   showPyBool (Spec.Ecdsa.isLowS E s)
       | none => "none")
   -- ECDSA signing exactly per SEC 1 + RFC 6979 (bits2octets reduction included) + low-S: msg key extra
